@@ -29,6 +29,20 @@ NET = [
     ("dir-w5s", 5, "TRUE", "TRUE", 1500, False),
 ]
 
+# modularity Q for every partition x gamma: name, N, DIRECTED, WEIGHTED, SAMPLE, quick?
+QCFG = [
+    ("und-u4", 4, "FALSE", "FALSE", 0, True),
+    ("und-w4", 4, "FALSE", "TRUE", 0, True),
+    ("dir-u3", 3, "TRUE", "FALSE", 0, True),
+    ("dir-w3", 3, "TRUE", "TRUE", 0, True),
+    ("dir-w4s", 4, "TRUE", "TRUE", 500, True),
+    ("und-w5s", 5, "FALSE", "TRUE", 150, True),
+    ("dir-u4", 4, "TRUE", "FALSE", 0, False),
+    ("dir-w4", 4, "TRUE", "TRUE", 0, False),
+    ("und-u5", 5, "FALSE", "FALSE", 0, False),
+    ("und-w5", 5, "FALSE", "TRUE", 0, False),
+]
+
 
 def run(ctx):
     thorough = ctx.tier == "thorough"
@@ -41,7 +55,14 @@ def run(ctx):
                         subst=dict(N=n, DIRECTED=d, WEIGHTED=w, SALT=salt, SAMPLE=sample, EMIT="TRUE"))
         ctx.replay(hb, "network", cases, name="R2 replay network " + name)
 
-    ctx.parallel([(lambda a=a: net_stage(*a[:5])) for a in NET if a[5] or thorough], width=4)
+    def q_stage(name, n, d, w, sample):
+        salt = ctx.seed if (w == "TRUE" or sample) else 0
+        cases = ctx.gen("network/Community.tla", "network/Community.cfg", name="R1+R2 gen Q " + name,
+                        subst=dict(N=n, DIRECTED=d, WEIGHTED=w, SALT=salt, SAMPLE=sample, EMIT="TRUE"))
+        ctx.replay(hb, "community-q", cases, name="R2 replay Q " + name)
+
+    ctx.parallel([(lambda a=a: net_stage(*a[:5])) for a in NET if a[5] or thorough] +
+                 [(lambda a=a: q_stage(*a[:5])) for a in QCFG if a[5] or thorough], width=4)
 
     ctx.assumptions += [
         "TLC/SANY and the CommunityModules (Json, Functions, FiniteSetsExt) are trusted",
